@@ -83,7 +83,7 @@ PROPS = {
     "C07": {
         "test": "TestC07",
         "lean_modules": ["Gittuf.Props.C07"],
-        "n": {"quick": 30, "thorough": 800},
+        "n": {"quick": 48, "thorough": 1200},
         "min_per_shard": 8,
         "rule": "recovery patterns on a real repository: 2-8 pushes over one or two protected references, each independently valid or "
                 "violating (signed by a key outside the rule), tree-new or tree-same as an earlier entry; structured episodes "
